@@ -3,6 +3,7 @@ Checker level: every bare generic x a probe set of values, exhaustively, against
 Call level: generated @pedantic functions with a missing / bare annotation at each position (see _call_common)."""
 import json
 import _checker_common as K
+import _call_common as C
 
 RULE = ('exhaustive: the 17 bare generics (list, dict, set, frozenset, tuple, type, typing.List, Dict, Set, FrozenSet, Tuple, Type, Callable, '
         'Iterable, Sequence, Union, Optional) x 40 probe values (None, empty and non-empty instances of every origin, subclasses, classes, '
@@ -37,13 +38,48 @@ def cases(rng, tier):
     for name in K.BARE:
         for v in probes():
             out.append(K.mk_case(["bare", name], v, kind='bare-probe'))
+    # call level: generated @pedantic programs where ~35% of the annotations (parameters of every kind, return) are missing or bare
+    n = 700 if tier == 'quick' else 6000
+    out += C.build_cases(rng, n, calls_per=3, profile='incomplete', style='kw', tag='c06a')
+    out += C.build_cases(rng, n // 4, calls_per=2, profile='incomplete', style=None, tag='c06b')
     return out
 
 
-run_impl = K.run_impl_checker
+def search(rng, tier, near):
+    return C.build_cases(rng, 1500, calls_per=3, profile='incomplete', style='kw', tag='c06s')
+
+
+def run_impl(cases):
+    out = []
+    for c in cases:
+        out.extend(C.run_impl_calls([c]) if c['m'] == 'calllayer' else K.run_impl_checker([c]))
+    return out
+
+
+def judge_call(case, impl, model):
+    corr, why = C.correspondence(case, impl, model)
+    s = model['spec']
+    out = C.norm_out(impl['out'])
+    pedantic = case['c']['fn']['mode'] == 'pedantic'
+    pfail = None
+    inc = pedantic and (s['incompleteParam'] or s['incompleteReturn'])
+    if inc:
+        if out in ('RET', 'RETGEN', 'RET:other'):
+            pfail = f'a value was handed back although an annotation is missing / bare - {C.describe_case(case)}'
+        elif s['incompleteParam'] and impl['ran']:
+            pfail = f'the body ran although a parameter annotation is missing / bare - {C.describe_case(case)}'
+        elif s['keywordCall'] and C.twin_accepts(impl) and out != 'PED:TypeCheck' and not (out == 'BODY_EXC' and not s['incompleteParam']):
+            pfail = f'{impl["out"]} instead of PedanticTypeCheckException - {C.describe_case(case)}'
+    finding = None
+    if pfail and corr and ('untruthful' in model['regions'] or 'clazzFails' in model['regions']):
+        finding = 'bodyMentionsStaticmethodIncomplete'
+    return {'corr': corr, 'pfail': pfail, 'finding': finding, 'nontrivial': bool(inc),
+            'tag': f"call/{case['x']['kind']}/inc={int(s['incompleteParam'])}{int(s['incompleteReturn'])}/{out}", 'why': why}
 
 
 def judge(case, impl, model):
+    if case['m'] == 'calllayer':
+        return judge_call(case, impl, model)
     io = impl['out']
     if io.startswith('unbuildable'):
         return {'corr': True, 'pfail': None, 'nontrivial': False, 'tag': 'unbuildable'}
